@@ -71,6 +71,8 @@ def compare_out(config, msg, out, ctxt=''):
             continue
         if icc_sent and (k == 'ICC_DATA' or k.startswith('TAG')):
             continue
+        if k.startswith('DE43_') and any(c.get('field_processor') == 'DE43' and 'DE' + b in msg for b, c in config.items()):
+            continue
         return 'extra-key', f'unexpected key {k} = {out[k]!r} in the decoded message; message {_short(msg)}'
     return None
 
